@@ -22,6 +22,11 @@ type C13Case struct {
 	Tree    V           `json:"tree"`
 	Flavour int         `json:"flavour"` // bit mask steering typed flavours in the source
 	Mods    []NativeMod `json:"mods"`
+	// Share: the container is built with Add/Set and the nested container selected by ShareFrom is
+	// additionally stored inside the one selected by ShareInto (same instance at two positions)
+	Share     bool `json:"share,omitempty"`
+	ShareFrom int  `json:"sharefrom,omitempty"`
+	ShareInto int  `json:"shareinto,omitempty"`
 }
 
 func GenC13(t *rapid.T) *C13Case {
@@ -38,6 +43,9 @@ func GenC13(t *rapid.T) *C13Case {
 		}
 	}
 	c := &C13Case{Tree: tree, Flavour: drawInt(t, 0, 255, "flavour")}
+	if drawInt(t, 0, 5, "share") == 0 {
+		c.Share, c.ShareFrom, c.ShareInto = true, genRaw(t), genRaw(t)
+	}
 	n := drawInt(t, 1, 6, "nmods")
 	for i := 0; i < n; i++ {
 		c.Mods = append(c.Mods, NativeMod{Party: drawInt(t, 0, 3, "party"), Node: genRaw(t), Op: []string{"set", "delete"}[drawInt(t, 0, 1, "op")], A: genRaw(t)})
@@ -344,30 +352,36 @@ func checkNative(c *C13Case, st *Stats) error {
 	if !EqVBits(nat2V, tree) {
 		return errf("NativeDict/NativeSlice of a container built with Add/Set differs: %s, expected %s", nat2V.Show(), tree.Show())
 	}
-	shallow := oneLevel()
 	// Dict/Slice: exactly the keys/indices, each entry == what Get returns
-	switch cc := cont.(type) {
-	case at.Object:
-		d := shallow.(map[string]any)
-		if len(d) != cc.Count() {
-			return errf("Dict() has %d entries, Count() is %d", len(d), cc.Count())
-		}
-		for _, k := range sortedKeys(cc) {
-			e, ok := d[k]
-			if !ok || !ifaceEq(e, cc.Get(k)) {
-				return errf("Dict()[%q] = %s (present %v), Get returns %s", k, showAny(e), ok, showAny(cc.Get(k)))
+	checkOneLevel := func(shallow any) error {
+		switch cc := cont.(type) {
+		case at.Object:
+			d := shallow.(map[string]any)
+			if len(d) != cc.Count() {
+				return errf("Dict() has %d entries, Count() is %d", len(d), cc.Count())
+			}
+			for _, k := range sortedKeys(cc) {
+				e, ok := d[k]
+				if !ok || !ifaceEq(e, cc.Get(k)) {
+					return errf("Dict()[%q] = %s (present %v), Get returns %s", k, showAny(e), ok, showAny(cc.Get(k)))
+				}
+			}
+		case at.List:
+			s := shallow.([]any)
+			if len(s) != cc.Count() {
+				return errf("Slice() has %d entries, Count() is %d", len(s), cc.Count())
+			}
+			for i := range s {
+				if !ifaceEq(s[i], cc.Get(i)) {
+					return errf("Slice()[%d] = %s, Get returns %s", i, showAny(s[i]), showAny(cc.Get(i)))
+				}
 			}
 		}
-	case at.List:
-		s := shallow.([]any)
-		if len(s) != cc.Count() {
-			return errf("Slice() has %d entries, Count() is %d", len(s), cc.Count())
-		}
-		for i := range s {
-			if !ifaceEq(s[i], cc.Get(i)) {
-				return errf("Slice()[%d] = %s, Get returns %s", i, showAny(s[i]), showAny(cc.Get(i)))
-			}
-		}
+		return nil
+	}
+	shallow := oneLevel()
+	if err := checkOneLevel(shallow); err != nil {
+		return err
 	}
 
 	// ---- non-aliasing: modify one party, all others keep their snapshots ----
@@ -438,6 +452,18 @@ func checkNative(c *C13Case, st *Stats) error {
 		}
 		applied++
 		st.Count("mod." + parties[party])
+		// exports taken NOW must describe the container as it is NOW (a stale or shared cache would show here)
+		nowSnap, err := TakeIdentSnap(cont)
+		if err != nil {
+			return err
+		}
+		var ff []string
+		if fresh := normNative(export(), &ff, "$"); !EqVBits(fresh, nowSnap.Tree) {
+			return errf("after modifying the %s a fresh NativeDict/NativeSlice is %s but the container holds %s", parties[party], fresh.Show(), nowSnap.Tree.Show())
+		}
+		if err := checkOneLevel(oneLevel()); err != nil {
+			return errf("after modifying the %s a fresh export is wrong: %v", parties[party], err)
+		}
 		for q := range parties {
 			now := snapshot(q)
 			if q == party {
@@ -489,11 +515,54 @@ func nonCanonicalNative(x any, path string) string {
 	return fmt.Sprintf("%s is a %T", path, x)
 }
 
+// checkSharedInstance: a container instance stored at two positions must be
+// exported (recursively) at both.
+func checkSharedInstance(c *C13Case, st *Stats) error {
+	cont := Build(c.Tree)
+	ids := Idents(cont)
+	from, into := ids[c.ShareFrom%len(ids)], ids[c.ShareInto%len(ids)]
+	if from == cont || containsIdent(Idents(from), into) {
+		return nil // would create a cycle
+	}
+	switch x := into.(type) {
+	case at.List:
+		x.Add(from)
+	case at.Object:
+		x.Set("shared-instance", from)
+	}
+	st.Count("shared_instance")
+	st.MarkNonTrivial()
+	want, err := Snap(cont)
+	if err != nil {
+		return err
+	}
+	var nat any
+	if o, ok := cont.(at.Object); ok {
+		nat = o.NativeDict()
+	} else {
+		nat = cont.(at.List).NativeSlice()
+	}
+	var foreign []string
+	got := normNative(nat, &foreign, "$")
+	if len(foreign) > 0 {
+		return errf("native export of a tree with a container stored twice is not plain Go data: %v", foreign)
+	}
+	if !EqVBits(got, want) {
+		return errf("native export differs from the content when one container instance is stored at two positions: %s, expected %s", got.Show(), want.Show())
+	}
+	return nil
+}
+
 func CheckC13(c *C13Case, st *Stats) error {
 	if c.Tree.K != KList && c.Tree.K != KObject {
 		return nil
 	}
 	st.Count("root." + c.Tree.K.String())
+	if c.Share {
+		if err := checkSharedInstance(c, st); err != nil {
+			return err
+		}
+	}
 	return checkNative(c, st)
 }
 
